@@ -16,6 +16,10 @@ SITES = {
     'SF_Compt': ('q_Compt_arr', lambda x: x),
     'ComptonProfile': ('pz_ComptonProfiles', lambda x: math.exp(x) - 1.0),
 }
+# site -> (ordinate table, value from ordinate): for the raw-ordinate oracle at the knots (theorems knot_<site>, Props/C02c.lean)
+ORD = {'CS_Photo': ('CS_Photo_arr', math.exp), 'CS_Rayl': ('CS_Rayl_arr', math.exp), 'CS_Compt': ('CS_Compt_arr', math.exp),
+       'CS_Energy': ('CS_Energy_arr', math.exp), 'Fi': ('Fi_arr', float), 'Fii': ('Fii_arr', float), 'FF_Rayl': ('FF_Rayl_arr', float),
+       'SF_Compt': ('SF_Compt_arr', float), 'ComptonProfile': ('Total_ComptonProfiles', math.exp)}
 EXTRA = ['ComptonProfile_Partial', 'CSb_Photo_Partial']     # site theorems in Props/C02b.lean; searched in search2()
 FRACS = (0.0, 0.137, 0.5, 0.863)
 ENDS = (1e-12, 1e-9, 0.9e-7, 1.1e-7, 1e-6, 1e-3)
@@ -25,12 +29,16 @@ class C02(Check):
     id = 'C02'
     module = 'Xrl.Props.C02'
     namespace = 'Xrl.C02'
-    extra_modules = [('Xrl.Props.C02b', 'Xrl.C02')]
+    # C02b: the two sub-shell sites; C02c: the cubic characterised by its defining properties (values at both knots, second derivative =
+    # linear interpolation of the tabulated ones, uniqueness), the value at every knot for the ten non-Kissel sites, knots at argument 0
+    extra_modules = [('Xrl.Props.C02b', 'Xrl.C02'), ('Xrl.Props.C02c', 'Xrl.C02')]
     functions = sorted(SITES) + EXTRA + ['splint']
     nonvacuity = ['no_extrapolation_full_fails', 'wit']
     assumptions = ['site theorems assume the shape predicate vecOkB of the table triple (non-decreasing knots, count inside the vectors); '
                    'it is executed on the dumped tables on every run (compiled Lean, not kernel)',
-                   'theorems are over the reals: rounding of the cubic is absorbed by the comparison tolerance of the correspondence run']
+                   'theorems are over the reals: rounding of the cubic is absorbed by the comparison tolerance of the correspondence run',
+                   'SF_Compt(Z, 0) is an error also where q = 0 is a tabulated knot (hydrogen): the tabulated value there is 0, the error sentinel (sf_compt_zero_knot); '
+                   'FF_Rayl(Z, 0) = Z by definition; both agree with the tables under the executed conditions spec.zeroKnotBad = [] (knots at 0: FF_Rayl:1, SF_Compt:1)']
 
     def knots(self, ctx):
         if hasattr(ctx, '_knots'): return ctx._knots
@@ -114,13 +122,17 @@ class C02(Check):
                     # knot pair(s) (where bracketing is undefined); a disagreement anywhere else on that element is a new violation
                     xs = self.knots(ctx).get((fn, Z), [])
                     x = math.log(a * 1000.0) if a > 0 else None
-                    spans = [(min(xs[k], xs[k + 1], xs[max(k - 1, 0)]), max(xs[k], xs[k + 1], xs[min(k + 2, len(xs) - 1)])) for k in range(len(xs) - 1) if xs[k + 1] < xs[k]]
+                    # (the inverted pair itself: for x below xs[k+1] or above xs[k] the downward scan of the specification and the bisection of splint agree)
+                    spans = [(xs[k + 1], xs[k]) for k in range(len(xs) - 1) if xs[k + 1] < xs[k]]
                     if x is not None and any(lo - 1e-9 <= x <= hi + 1e-9 for lo, hi in spans): key = 'shape:%s:%d' % (tab, Z)
                 viol.append(dict(key=key, got=co, expected=eo, what='spline site: library vs specification (%s point)' % cls))
             # the property's own reading of "never extrapolates": beyond the last knot the call must fail
             if cls == 'high' and core.parse_answer(co)['kind'] == 'ok' and core.parse_answer(co)['slot'] == 'E':
                 viol.append(dict(key='splint-slack', got=co, expected='fails', what='%s: accepted and extrapolated beyond the last knot (x - x_n <= 1e-7 in transformed space)' % cl))
+        nk, vk, stk = self.knot_oracle(ctx)
+        viol += vk; stats.update(stk)
         n2, v2, st2 = self.search2(ctx)
+        n2 += nk
         viol += v2; stats.update(st2)
         # de-duplicate class-keyed violations
         seen = set(); out = []
@@ -132,6 +144,37 @@ class C02(Check):
                      distinct_nontrivial=len(nontriv), point_classes=classes, shape_failures=sorted(bad_shape),
                      samples=[dict(call=clines[i], impl=c[i], expected=e[i]) for i in (0, len(clines) // 2, len(clines) - 1)])
         return len(clines) + n2, out, stats
+
+    # ---- "equals the tabulated value at every knot", read literally: at every knot with distinct neighbours on both sides (and the last
+    #      knot) of every table the library must return the inverse transform of the TABULATED ORDINATE itself (not the specification's
+    #      cubic evaluated there) — the executable form of the theorems knot_<site> (Props/C02c.lean).  Every knot, both tiers.
+    def knot_oracle(self, ctx):
+        kn = self.knots(ctx)
+        req = ['vec %s %d' % (ORD[fn][0], Z) for fn in SITES for Z in range(1, 121)]
+        out = ctx.run_model(req)
+        lines = []; want = []
+        i = 0
+        for fn in SITES:
+            inv = SITES[fn][1]; fy = ORD[fn][1]
+            for Z in range(1, 121):
+                ys = [unhx(t) for t in out[i].split(' ')[1:] if t]; i += 1
+                xs = kn.get((fn, Z), [])
+                if len(xs) < 3 or len(ys) < len(xs): continue
+                for k in range(1, len(xs)):
+                    if not (xs[k - 1] < xs[k] and (k == len(xs) - 1 or xs[k] < xs[k + 1])): continue
+                    a = inv(xs[k])
+                    if not (a > 0 or (fn == 'ComptonProfile' and a >= 0)): continue
+                    try: w = fy(ys[k])
+                    except OverflowError: continue
+                    if w == 0.0: continue            # a tabulated 0 is the error sentinel (SF_Compt at q = 0: sf_compt_zero_knot)
+                    lines.append('%s %d %s E' % (fn, Z, hx(a))); want.append(w)
+        viol = []
+        for l, w, o in zip(lines, want, ctx.run_c(lines)):
+            pa = core.parse_answer(o)
+            if not (pa['kind'] == 'ok' and pa['slot'] == 'E' and core.close(pa['vals'][0], w, 1e-9)):
+                viol.append(dict(key=l, got=o, expected='value %r (the tabulated ordinate of this knot, inverse-transformed)' % w,
+                                 what='the interpolated quantity at a knot is not the tabulated value'))
+        return len(lines), viol[:100], dict(knot_oracle=dict(knots=len(lines), rule='every knot with distinct neighbours and the last knot of each of the 9 x 120 tables: library vs the tabulated ordinate, rel 1e-9'))
 
     # ---- the two sub-shell sites (Props/C02b.lean): per-shell Compton profiles (shipped tables) and the Kissel partial photo-
     #      ionisation cross sections (Kissel table regenerated from data/kissel: in the shipped configuration it is empty)
@@ -168,48 +211,79 @@ class C02(Check):
         for Z in (-1, 0, 121):
             cl.append('ComptonProfile_Partial %d 0 %s E' % (Z, hx(1.0))); sl.append('spec.ComptonProfile_Partial %d 0 %s' % (Z, hx(1.0))); cs.append('badZ')
         nt_a = cmp('ComptonProfile_Partial', cl, sl, cs); n += len(cl)
-        # (b) CSb_Photo_Partial on the regenerated Kissel table: below the edge, edge..first knot (the log-log extension), every
-        #     knot interval, beyond the last knot
-        suf = ctx.build_kissel_config('real')
-        exe = ctx.sc.path('cdrv' + suf); dump = 'dump' + suf
-        sh2 = ctx.run_model(['spec.shapeFailures2', 'spec.weightFailures'], dump=dump) + ctx.run_model(['spec.shapeFailures2', 'spec.weightFailures'])
-        for o, nm in zip(sh2, ('shapeFailures2@real', 'weightFailures@real', 'shapeFailures2', 'weightFailures')):
+        # (b) CSb_Photo_Partial: below the edge, edge..first knot (the log-log extension, by the branch of its slope limit), EVERY knot
+        #     interval of every sub-shell table of the elements visited, beyond the last knot — on the Kissel table regenerated from
+        #     data/kissel ("real": the configuration the property names) and on the synthetic table ("synth", tools/synth_kissel.py:
+        #     first-interval slopes above 1, inside [-1, 1] and below -1 by construction).  Thorough tier: every element; quick
+        #     tier: the elements Z = -off (mod 6), a slice that rotates with the seed.
+        cfgs = {}
+        for kind in ('real', 'synth'):
+            suf = ctx.build_kissel_config(kind)
+            exe = ctx.sc.path('cdrv' + suf); dump = 'dump' + suf
+            sh2 = ctx.run_model(['spec.shapeFailures2', 'spec.weightFailures'], dump=dump)
+            for o, nm in zip(sh2, ('shapeFailures2@' + kind, 'weightFailures@' + kind)):
+                bad = [x for x in o[len('shape ['):-1].split(', ') if x]
+                for b in bad[:5]:
+                    viol.append(dict(key='%s:%s' % (nm, b), got='false', expected='sub-shell table well-formed / atomic weight present wherever a structure table is',
+                                     what='data invariant assumed by the C02b / C05b theorems fails on the tables built from the working tree'))
+            cl, sl, cs, info = self.kissel_points(ctx, dump, step, off)
+            nt = cmp('CSb_Photo_Partial', cl, sl, cs, exe=exe, dump=dump, tag='  @' + kind); n += len(cl)
+            cls_count = {}
+            for c_ in cs: cls_count[c_] = cls_count.get(c_, 0) + 1
+            cfgs[kind] = dict(calls=len(cl), nontrivial=nt, classes=cls_count, **info)
+        sh2 = ctx.run_model(['spec.shapeFailures2', 'spec.weightFailures', 'spec.zeroKnotBad', 'spec.zeroKnotTables'])
+        for o, nm in zip(sh2[:3], ('shapeFailures2', 'weightFailures', 'zeroKnotBad')):
             bad = [x for x in o[len('shape ['):-1].split(', ') if x]
             for b in bad[:5]:
-                viol.append(dict(key='%s:%s' % (nm, b), got='false', expected='sub-shell table well-formed / atomic weight present wherever a structure table is',
-                                 what='data invariant assumed by the C02b / C05b theorems fails on the tables built from the working tree'))
+                viol.append(dict(key='%s:%s' % (nm, b), got='false', expected='sub-shell table well-formed / atomic weight present wherever a structure table is / a knot at argument 0 holds the value the function is defined to have there (FF: Z, SF: 0)',
+                                 what='data invariant assumed by the C02b / C02c / C05b theorems fails on the tables built from the working tree'))
+        # the synthetic table must reach the three branches of the slope limit (it is built to); the regenerated one is counted
+        ext = cfgs['synth'].get('extension_slope_classes', {})
+        for br in ('above_1', 'inside', 'below_-1'):
+            if not ext.get(br):
+                viol.append(dict(key='synthetic-table:extension:' + br, got='no sub-shell of the synthetic Kissel table has a first-interval slope %s' % br, expected='at least one (tools/synth_kissel.py slope_class)',
+                                 what='the synthetic configuration no longer exercises this branch of the edge-to-first-knot extension'))
+        stats.update(subshell_sites=dict(ComptonProfile_Partial=dict(nontrivial=nt_a), CSb_Photo_Partial=cfgs, zero_knot_tables=sh2[3],
+                                         rule='Kissel sub-shell tables: %s; every knot interval of every visited table at fractions %s' % (
+                                             'every element' if step == 1 else 'elements Z = %d (mod %d), a seeded rotating slice' % ((-off) % step, step), FRACS)))
+        return n, viol, stats
+
+    def kissel_points(self, ctx, dump, step, off):
+        """CSb_Photo_Partial inputs for one data configuration -> (C lines, spec lines, classes, info)"""
         Zs = [Z for Z in range(1, 101) if (Z + off) % step == 0] + [0, 101, 121]
-        req = ['vec E_Photo_Partial_Kissel %d' % (Z * 31 + sh) for Z in Zs if 1 <= Z <= 120 for sh in range(31)]
+        req = []
+        for Z in Zs:
+            if 1 <= Z <= 120:
+                for sh in range(31): req += ['vec E_Photo_Partial_Kissel %d' % (Z * 31 + sh), 'vec Photo_Partial_Kissel %d' % (Z * 31 + sh)]
         out = iter(ctx.run_model(req, dump=dump))
         edges = {}
         q = ['EdgeEnergy %d %d N' % (Z, sh) for Z in Zs if 1 <= Z <= 120 for sh in range(28)]
         for l, o in zip(q, ctx.run_c(q)):
             _, Z, sh, _ = l.split(); edges[(int(Z), int(sh))] = core.parse_answer(o)['vals'][0]
         cl = []; sl = []; cs = []
+        ext = {'above_1': 0, 'inside': 0, 'below_-1': 0}; ntab = 0; nint = 0
         def add(Z, sh, E, c_):
             cl.append('CSb_Photo_Partial %d %d %s E' % (Z, sh, hx(E))); sl.append('spec.CSb_Photo_Partial %d %d %s' % (Z, sh, hx(E))); cs.append(c_)
         for Z in Zs:
             for sh in range(-1, 32):
-                xs = []
-                if 1 <= Z <= 120 and 0 <= sh < 31: xs = [unhx(t) for t in next(out).split(' ')[1:] if t]
+                xs = []; ys = []
+                if 1 <= Z <= 120 and 0 <= sh < 31:
+                    xs = [unhx(t) for t in next(out).split(' ')[1:] if t]; ys = [unhx(t) for t in next(out).split(' ')[1:] if t]
                 ed = edges.get((Z, sh), 0.0)
                 for E in (1.0, 30.0): add(Z, sh, E, 'grid')
                 if ed > 0:
                     add(Z, sh, ed * (1 - 1e-9), 'below-edge'); add(Z, sh, ed, 'edge'); add(Z, sh, ed * (1 + 1e-9), 'above-edge')
                 if len(xs) >= 2:
+                    ntab += 1; nint += len(xs) - 1
                     lo = math.exp(xs[0]); hi = math.exp(xs[-1])
                     if ed > 0 and ed < lo:
-                        for f in (0.25, 0.5, 0.9): add(Z, sh, ed + f * (lo - ed), 'extension')
+                        m = (ys[1] - ys[0]) / (xs[1] - xs[0]) if len(ys) >= 2 and xs[1] != xs[0] else 0.0
+                        br = 'above_1' if m > 1.0 else 'below_-1' if m < -1.0 else 'inside'
+                        ext[br] += 1
+                        for f in (0.0, 0.25, 0.5, 0.9, 1 - 1e-9): add(Z, sh, ed + f * (lo - ed), 'extension:' + br)
                     add(Z, sh, lo, 'knot'); add(Z, sh, hi, 'knot'); add(Z, sh, hi * (1 + 1e-6), 'high'); add(Z, sh, hi * (1 - 1e-9), 'interior')
-                    ks = sorted(set([0, len(xs) - 2] + ctx.rng.sample(range(len(xs) - 1), min(4 if ctx.tier == 'quick' else 40, len(xs) - 1))))
-                    for k in ks:
+                    for k in range(len(xs) - 1):
                         for f in FRACS: add(Z, sh, math.exp(xs[k] + f * (xs[k + 1] - xs[k])), 'knot' if f == 0.0 else 'interior')
-        # a point right at a knot can fall on either side of the edge/knot comparison after exp/log rounding: classes 'edge' and
-        # 'knot' at the FIRST knot are compared only when both sides agree on success
-        nt_b = cmp('CSb_Photo_Partial', cl, sl, cs, exe=exe, dump=dump, tag='  @real'); n += len(cl)
-        cls_count = {}
-        for c_ in cs: cls_count[c_] = cls_count.get(c_, 0) + 1
-        stats.update(subshell_sites=dict(ComptonProfile_Partial=dict(nontrivial=nt_a), CSb_Photo_Partial=dict(calls=len(cl), nontrivial=nt_b, classes=cls_count)))
-        return n, viol, stats
+        return cl, sl, cs, dict(elements=len([Z for Z in Zs if 1 <= Z <= 100]), subshell_tables=ntab, knot_intervals=nint, extension_slope_classes=ext)
 
 CHECK = C02()
